@@ -479,6 +479,10 @@ type c02Input struct {
 	Rd    int     `json:"rd"`
 	Slow  bool    `json:"slow"`
 	Procs int     `json:"gomaxprocs"`
+	// fault runs (c02lts.go)
+	Fault    bool `json:"fault,omitempty"`
+	FailFrom int  `json:"fail_from,omitempty"`
+	FailLen  int  `json:"fail_len,omitempty"`
 }
 
 func c02ErrClass(err error) string {
@@ -827,6 +831,9 @@ func checkC02(c *ctx) {
 			runs = append(runs, run{li, rd, impl})
 			r.eval(fmt.Sprintf("%s|%s|%d", blocks, opsM, rd), hasSeek && touches)
 		}
+		if h%2 == 0 {
+			runC02Fault(c, f, ops, 2+2*(h/2%2), procs)
+		}
 		if h < 3 {
 			r.sample(c02Input{File: c02File{Blocks: f.Blocks}, Ops: ops, Rd: 2, Procs: procs})
 		}
@@ -857,7 +864,11 @@ func checkC02(c *ctx) {
 		nld += lc.nloads
 		if strings.HasPrefix(ans, "path ") && strings.Contains(ans, "done=1 stuck=0 panic=0") {
 			r.TracesValidated++
-			r.hist(fmt.Sprintf("lts.trace.rd%d", lc.in.Rd))
+			if lc.faults {
+				r.hist(fmt.Sprintf("lts.trace.faults.rd%d", lc.in.Rd))
+			} else {
+				r.hist(fmt.Sprintf("lts.trace.rd%d", lc.in.Rd))
+			}
 			continue
 		}
 		line := lc.line
